@@ -72,8 +72,8 @@ _H = [["history", "1", "12", "300"], ["history", "5", "6", "800"], ["history", "
 _SC = [["scan", "128", "k25", "k312", "k911", "k303"], ["scan", "8", "a", "b", "c", "d", "e", "f", "g", "h", "i", "j"], ["scan", "4", "a"],
        ["scan", "64", "k1", "k2", "k3", "k4", "k5", "k6", "k7", "k8", "k9", "k10", "k11", "k12"]]
 BOUNDED_SCEN = {
-    "C01": _H + [["putget", "5000"], ["putsweep"], ["keys"]], "C10": [["keys"]], "C02": [["reopen"], ["durable"], ["dbsync"], ["names"]] + _H[:4], "C03": [["flushdur"], ["durable"], ["dbsync"]],
-    "C04": _SC + _H[:2], "C05": _H + [["reuse"]], "C06": [["reuse"], ["putsweep"], ["grow"]] + _H, "C07": [["bufsize", "131072"], ["bufsize", "1000"], ["reopen"], ["scan", "4", "a"]] + _H[:1],
+    "C01": _H + [["putget", "5000"], ["putsweep"], ["keys"], ["pertype"]], "C10": [["keys"], ["pertype"]], "C02": [["reopen"], ["durable"], ["dbsync"], ["names"]] + _H[:4], "C03": [["flushdur"], ["durable"], ["dbsync"]],
+    "C04": _SC + _H[:2] + [["pertype"]], "C05": _H + [["reuse"]], "C06": [["reuse"], ["putsweep"], ["grow"]] + _H, "C07": [["bufsize", "131072"], ["bufsize", "1000"], ["reopen"], ["scan", "4", "a"]] + _H[:1],
     "C08": _H, "C09": [["putget", "5000"], ["putget", "70000"], ["putsweep"]], "C12": [["reopen"]], "C13": [["sigmut"]], "C15": [["readonly"]],
     "C14": [["bulk"]], "C16": [["flushdur"]], "C17": [["stats"]], "C18": [["determ"]],
 }
